@@ -146,41 +146,49 @@ func lenAfter(n int, c call) int {
 }
 
 func gen(tier string, r *lib.Rand, emit func(string)) {
-	ncalls, full, chainLen, nrand, progLen := 4, 1, 6, 400, 3
+	chainLen, nrand, progLen := 6, 400, 3
 	if tier == "thorough" {
-		ncalls, full, chainLen, nrand, progLen = 5, 1, 7, 8000, 4
+		chainLen, nrand, progLen = 7, 8000, 4
 	}
 
 	// (a) every call sequence up to ncalls over operands -1..len+1 and shifts 0..3.  A rejected call
-	// leaves the program as it was, so below depth `full` the subtree under a rejected call is not
-	// repeated (the call itself is still emitted after every explored prefix).
-	var rec func(cs []call, n int)
-	rec = func(cs []call, n int) {
-		emit("build " + encCalls(cs))
-		if len(cs) == ncalls {
-			return
-		}
-		var next []call
-		for i := -1; i <= n+1; i++ {
-			next = append(next, call{'D', i, 0})
-			for j := -1; j <= n+1; j++ {
-				next = append(next, call{'A', i, j})
-			}
-			for s := 0; s <= 3; s++ {
-				next = append(next, call{'S', i, s})
-			}
-		}
-		for _, c := range next {
-			m := lenAfter(n, c)
-			ncs := append(append([]call{}, cs...), c)
-			if len(cs) >= full && m == n {
-				emit("build " + encCalls(ncs))
-				continue
-			}
-			rec(ncs, m)
-		}
+	// leaves the program as it was, so from depth `full` on the subtree under a rejected call is not
+	// repeated (the call itself is still emitted after every explored prefix); shifts by more than
+	// `smax` are emitted but not extended unless they are the last call.
+	type cfg struct{ ncalls, full, smax int }
+	cfgs := []cfg{{4, 1, 3}}
+	if tier == "thorough" {
+		cfgs = []cfg{{4, 2, 3}, {5, 1, 1}}
 	}
-	rec(nil, 0)
+	for _, cf := range cfgs {
+		var rec func(cs []call, n int)
+		rec = func(cs []call, n int) {
+			emit("build " + encCalls(cs))
+			if len(cs) == cf.ncalls {
+				return
+			}
+			var next []call
+			for i := -1; i <= n+1; i++ {
+				next = append(next, call{'D', i, 0})
+				for j := -1; j <= n+1; j++ {
+					next = append(next, call{'A', i, j})
+				}
+				for s := 0; s <= 3; s++ {
+					next = append(next, call{'S', i, s})
+				}
+			}
+			for _, c := range next {
+				m := lenAfter(n, c)
+				ncs := append(append([]call{}, cs...), c)
+				if (len(cs) >= cf.full && m == n) || (c.kind == 'S' && c.j > cf.smax && len(cs) < cf.ncalls-1) {
+					emit("build " + encCalls(ncs))
+					continue
+				}
+				rec(ncs, m)
+			}
+		}
+		rec(nil, 0)
+	}
 
 	// (b) random long call sequences, about 90% in range
 	for t := 0; t < nrand; t++ {
@@ -235,10 +243,11 @@ func gen(tier string, r *lib.Rand, emit func(string)) {
 		}
 	}
 	prec(nil)
-	// all well-formed programs one level deeper
-	var wrec func(cur []addchain.Op)
-	wrec = func(cur []addchain.Op) {
-		if len(cur) == progLen+2 {
+	// deeper, well-formed programs only: every operand order one level deeper (thorough tier), and
+	// two levels deeper with i <= j (the shape Chain.Program produces)
+	var wrec func(cur []addchain.Op, depth int, ordered bool)
+	wrec = func(cur []addchain.Op, depth int, ordered bool) {
+		if len(cur) == depth {
 			e := encOps(cur)
 			emit("count " + e)
 			emit("reads " + e)
@@ -248,32 +257,19 @@ func gen(tier string, r *lib.Rand, emit func(string)) {
 		}
 		n := len(cur)
 		for i := 0; i <= n; i++ {
-			for j := 0; j <= n; j++ {
-				wrec(append(append([]addchain.Op{}, cur...), addchain.Op{I: i, J: j}))
+			j0 := 0
+			if ordered {
+				j0 = i
+			}
+			for j := j0; j <= n; j++ {
+				wrec(append(append([]addchain.Op{}, cur...), addchain.Op{I: i, J: j}), depth, ordered)
 			}
 		}
 	}
 	if tier == "thorough" {
-		wrec(nil)
-	} else {
-		// quick: programs with i <= j only (what Chain.Program produces) at that depth
-		var w2 func(cur []addchain.Op)
-		w2 = func(cur []addchain.Op) {
-			if len(cur) == progLen+2 {
-				e := encOps(cur)
-				emit("reads " + e)
-				emit("deps " + e)
-				return
-			}
-			n := len(cur)
-			for i := 0; i <= n; i++ {
-				for j := i; j <= n; j++ {
-					w2(append(append([]addchain.Op{}, cur...), addchain.Op{I: i, J: j}))
-				}
-			}
-		}
-		w2(nil)
+		wrec(nil, progLen+1, false)
 	}
+	wrec(nil, progLen+2, true)
 	for t := 0; t < nrand; t++ {
 		n := r.Range(1, 70)
 		p := make([]addchain.Op, n)
@@ -317,7 +313,7 @@ func gen(tier string, r *lib.Rand, emit func(string)) {
 	}
 	for _, a := range all {
 		for _, b := range all {
-			if tier != "thorough" && len(a)+len(b) > chainLen+3 {
+			if (tier != "thorough" && len(a)+len(b) > chainLen+3) || len(a)+len(b) > chainLen+4 {
 				continue
 			}
 			emit("product " + enc64(a) + " " + enc64(b))
